@@ -258,7 +258,20 @@ def gen_conn_scripts(chk, gens):
         chk.add_tlc("conn.gen." + cls, gen)
         sim = gens["conn.sim." + cls].result()
         seen, scripts = set(), []
-        for h in gen.printed + sim.printed:
+        extra = []
+        if cls == "TT":
+            # focused histories (FocusConn): ten steps, an address can be validated, left for another validated one and come
+            # back; those with at least two address changes, and a seeded share of the rest
+            ret = gens["conn.ret.TT"].result()
+            chk.add_tlc("conn.ret.TT", ret)
+            rr = random.Random(chk.seed)
+            for h in ret.printed:
+                ra = [x["raddr"] for x in h["steps"]]
+                if sum(1 for i in range(1, len(ra)) if ra[i] != ra[i - 1]) >= 2 or rr.random() < 0.05:
+                    extra.append(h)
+            if len(extra) < 50:
+                raise vlib.Inconclusive("too few return histories (%d)" % len(extra))
+        for h in gen.printed + sim.printed + extra:
             s = to_script(h)
             if not useful(s):
                 continue
@@ -454,6 +467,7 @@ def start_tlc(chk):
         gens["conn.gen." + cls] = ge.submit(vlib.tlc_generate, MODULE, "CidRrc.conn.gen.%s.%s.cfg" % (cls, t), timeout=1500)
         gens["conn.sim." + cls] = ge.submit(vlib.tlc_generate, MODULE, "CidRrc.conn.sim.%s.cfg" % cls,
                                             simulate="num=%d" % nsim, depth=12, seed=chk.seed, timeout=900)
+    gens["conn.ret.TT"] = ge.submit(vlib.tlc_generate, MODULE, "CidRrc.conn.ret.TT.cfg", timeout=900)
     gens["route.gen"] = ge.submit(vlib.tlc_generate, MODULE, "CidRrc.route.gen.%s.cfg" % t, timeout=1500)
     gens["route.gen2"] = ge.submit(vlib.tlc_generate, MODULE, "CidRrc.route.gen2.%s.cfg" % t, timeout=1500)
     for name in MC:
